@@ -19,6 +19,7 @@ BNAME = {'HTTP-POST': BINDING_HTTP_POST, 'HTTP-Redirect': BINDING_HTTP_REDIRECT,
 # conversation information the application may supply: none, with the entity id, without it
 CONV = {False: None, True: {'entity_id': SP_X}, 'partial': {'remote_addr': '192.0.2.7'}}
 OTHER = 'urn:vp:someone-else'
+ADVICE_MARK = 'ADVICE-ATTRIBUTE-VALUE'
 
 IRT = ('req1', 'unknown', None)
 SCD_IRT = ('req1', 'req2', 'unknown', None)
@@ -77,6 +78,9 @@ def docs(thorough):
                 if binding != BINDING_HTTP_POST and (a not in ('me', 'other') or r != 'own'):
                     continue
                 out.append(dict(binding=binding, enc=enc, irt=irt, scd=[sirt], dest=d, aud=a, recip=r))
+            if binding == BINDING_HTTP_POST:
+                for adv in ('me', 'other', 'me|other', 'substring', 'none'):
+                    out.append(dict(binding=binding, enc=enc, irt='req1', scd=['req1'], dest='own', aud='me', recip='own', advice=adv))
             if not enc and binding == BINDING_HTTP_POST:
                 # non-initial state: the same SP has just handled a message over another binding
                 for b2 in (BINDING_HTTP_REDIRECT, BINDING_SOAP):
@@ -111,6 +115,9 @@ def build(doc):
         else:
             confs.append(forge.confirmation(now, irt=s, recipient=recip_value(doc['recip'], b, doc['dest'])))
     a = dict(confirmations=confs, audiences=AUD[doc['aud']])
+    if doc.get('advice'):
+        # an assertion in the Advice with its own audience restriction; its attribute must not be honoured unless it lists me
+        a['advice'] = forge.assertion(now, aid='ADV1', authn=False, audiences=AUD[doc['advice']], attrs=(('role', (ADVICE_MARK,)),))
     r = dict(irt=doc['irt'], dest=dest_value(doc['dest'], b))
     return forge.build(now, resp=r, assertions=[a], sign_resp=None if b == BINDING_SOAP else 'idpA', encrypt='spXenc1' if doc['enc'] else None)
 
@@ -162,6 +169,8 @@ def evaluate(doc):
         obs = oracle.accept_response(sp, xml, binding=doc['binding'], outstanding=ovals,
                                      conv_info=CONV[conv])
         why = required_reject(doc, allow, conv, regex) if obs['accept'] else []
+        if obs['accept'] and doc.get('advice') and ADVICE_MARK in repr(obs['identity'].get('ava')) and any(SP_X not in r for r in AUD[doc['advice']]):
+            why = why + ['c-audience-restriction-of-an-honoured-advice-assertion-does-not-list-me']
         cf = None
         if obs['accept'] and doc['irt'] in OUTSTANDING and not why and doc['binding'] != BINDING_SOAP:
             # (over the synchronous binding no return address is kept: not part of the statement)
@@ -193,7 +202,7 @@ def run(ctx):
             for y in o['why']:
                 key = {'kind': y, 'allow_unsolicited': o['allow'], 'conv_info': o['conv'], 'regex': o['regex'], 'enc': doc['enc'],
                        'binding': doc['binding'].rsplit(':', 1)[1], 'irt': doc['irt'], 'scd': doc['scd'], 'dest': doc['dest'], 'stored': doc.get('ovals', 'urls'),
-                       'aud': doc['aud'], 'recip': doc['recip'], 'primed_by': (doc.get('prime') or '').rsplit(':', 1)[-1] or None}
+                       'aud': doc['aud'], 'advice_aud': doc.get('advice'), 'recip': doc['recip'], 'primed_by': (doc.get('prime') or '').rsplit(':', 1)[-1] or None}
                 ctx.violation(key, {})
             if o['came_from']:
                 ctx.violation({'kind': o['came_from'], 'allow_unsolicited': o['allow'], 'irt': doc['irt'], 'scd': doc['scd'],
@@ -217,7 +226,8 @@ def run(ctx):
 def replay(ctx, w):
     TMP[0] = ctx.tmp
     b = BNAME[w['binding']]
-    doc = dict(binding=b, enc=w['enc'], irt=w['irt'], scd=w['scd'], dest=w['dest'], aud=w['aud'], recip=w['recip'], ovals=w.get('stored', 'urls'))
+    doc = dict(binding=b, enc=w['enc'], irt=w['irt'], scd=w['scd'], dest=w['dest'], aud=w['aud'], recip=w['recip'], ovals=w.get('stored', 'urls'),
+               advice=w.get('advice_aud'))
     if w.get('primed_by'):
         doc['prime'] = BNAME[w['primed_by']]
     outs = evaluate(doc)
